@@ -53,6 +53,9 @@ CHECKS = {
  "C01": dict(level="exploration", sec="3/C01", technique="exhaustive byte-grammar x boundary-state grid executed on the host CPU (native trampoline) and on the lifted IL under a reference interpreter; exhaustive within the stated grid, no sampling",
    text="Every encoding of the grammar [66/F2/F3][REX][all 1-byte/0F opcodes + 0F38/3A rows][ModRM/SIB forms][imm patterns] the lifter accepts, x the cross product of boundary values for every register the IL reads, flag valuations, memory patterns (20 M CPU executions in quick); GPRs, XMM, CF/ZF/SF/OF/DF, scratch memory, stack and next address compared. 32-bit mode through long-mode equivalent encodings. Segment, far, privileged and 32-bit stack instructions are not executed; values outside the alphabets are not covered.",
    note="Trusted: the host CPU, the trampoline/signal recovery, SDM undefined-flag masks, refil. Verdicts for behaviour the SDM leaves undefined are masked so they do not depend on the CPU vendor."),
+ "C02": dict(level="exploration", sec="3/C02", technique="exhaustive instruction-word grid x boundary-state grid; lifted IL under a reference IL interpreter compared with reference MIPS32/Power ISA interpreters written from the manuals",
+   text="MIPS (both endiannesses): every accepted opcode/funct/regimm x register roles with all aliasing x immediates x shift amounts, every branch x 8 delay-slot instructions; PPC: every accepted primary/extended opcode x roles x immediates x rlwinm SH/MB/ME cube x BO/BI; x boundary values for sources, HI/LO, CR/CTR/LR/CA, four alignments. GPRs, HI/LO, LR/CTR/CR/CA, memory, next PC and trap<->intrinsic compared. Values outside the alphabets are not covered.",
+   note="Trusted: harness MIPS32 and Power ISA reference interpreters (manual transcriptions), refil. UNPREDICTABLE results are masked/skipped; accepted words the reference does not model are counted."),
 }
 NA = []
 def main():
